@@ -587,6 +587,16 @@ class Tr:
                 res = f'dictHas (some {r}) {l}'
             else: raise Unsupported(f'membership in {rt}')
             return (f'({res})' if isinstance(op, ast.In) else f'!({res})'), 'bool'
+        if isinstance(op, (ast.Is, ast.IsNot)):
+            # `x is y` / `x is not y` between object references: reference equality (objects are references into
+            # the heap); an `Optional` on one side (`d.get(k) is node`): `None` is no object, so `== some y`
+            for ot in ('node', 'att'):
+                if lt == ot and rt == ot: res = f'({l} == {r})'
+                elif lt == ('opt', ot) and rt == ot: res = f'({l} == some {r})'
+                elif lt == ot and rt == ('opt', ot): res = f'(some {l} == {r})'
+                else: continue
+                return (res if isinstance(op, ast.Is) else f'!{res}'), 'bool'
+            raise Unsupported(f'`is` between {lt} and {rt}')
         if isinstance(op, (ast.Eq, ast.NotEq)):
             if lt != rt or lt not in ('str', 'int', 'bool', 'node', 'att'):
                 raise Unsupported(f'== between {lt} and {rt}')
@@ -1081,9 +1091,23 @@ class Tr:
                 vts = [(st.target.id, itt[1])]
                 pat = esc(st.target.id)
             saved = {v: self.locals.get(v) for v, _ in vts}
+            # a loop target that is also a declared local (accepted by `scope_analysis` only where the two uses
+            # cannot meet): Lean does not let a `for` binding shadow a `let mut`, the element gets a fresh name
+            ren = {}
+            if not isinstance(st.target, ast.Tuple) and id(st) in self.shadowing:
+                v = st.target.id
+                ren[v] = self.fresh(v); pat = esc(ren[v])
             for v, vt in vts: self.locals[v] = vt
             self.emit(ind, f'for {pat} in {it} do')
+            saved_narrow = {}
+            for v, nv in ren.items():
+                key = ast.dump(ast.Name(id=v, ctx=ast.Load()))
+                saved_narrow[key] = self.narrow.get(key)
+                self.narrow[key] = (esc(nv), self.locals[v])
             self.body(ind + 1, st.body)
+            for key, old in saved_narrow.items():
+                if old is None: self.narrow.pop(key, None)
+                else: self.narrow[key] = old
             for v, _ in vts:
                 if saved[v] is None: del self.locals[v]
                 else: self.locals[v] = saved[v]
@@ -1159,7 +1183,7 @@ class Tr:
         occ: dict[str, list] = {}          # name -> [(path, is_direct_assign)]
         def walk_expr(e, path):
             for n in ast.walk(e):
-                if isinstance(n, ast.Name) and n.id not in params:
+                if isinstance(n, ast.Name) and n.id not in params and not bound.get(n.id):
                     occ.setdefault(n.id, []).append((path, False, isinstance(n.ctx, ast.Load)))
         def walk_block(stmts, path):
             for i, st in enumerate(stmts):
@@ -1172,9 +1196,11 @@ class Tr:
                     walk_expr(st.value, p)
                     for t in st.targets:
                         if isinstance(t, ast.Name):
+                            if bound.get(t.id): raise Unsupported(f'assignment to the loop variable {t.id} inside its loop')
                             if t.id not in params: occ.setdefault(t.id, []).append((p, True, False))
                         elif isinstance(t, ast.Tuple) and all(isinstance(x, ast.Name) for x in t.elts):
                             for x in t.elts:
+                                if bound.get(x.id): raise Unsupported(f'assignment to the loop variable {x.id} inside its loop')
                                 if x.id not in params and x.id != '_': occ.setdefault(x.id, []).append((p, True, False))
                         else: walk_expr(t, p)
                 elif isinstance(st, ast.If):
@@ -1184,7 +1210,14 @@ class Tr:
                     walk_expr(st.iter, p); loopvars.add(st.target.id if isinstance(st.target, ast.Name) else '')
                     if isinstance(st.target, ast.Tuple):
                         loopvars.update(x.id for x in st.target.elts if isinstance(x, ast.Name))
+                    # inside the loop its target names the element (a `for` binding of Lean, which shadows a
+                    # declared local of that name): those occurrences are not occurrences of the local
+                    tv = [x.id for x in ([st.target] if isinstance(st.target, ast.Name) else
+                                         list(getattr(st.target, 'elts', []))) if isinstance(x, ast.Name)]
+                    for v in tv:
+                        bound[v] = bound.get(v, 0) + 1; loop_stmts.setdefault(v, []).append(p)
                     walk_block(st.body, p)
+                    for v in tv: bound[v] -= 1
                 elif isinstance(st, ast.While):
                     walk_expr(st.test, p); walk_block(st.body, p)
                 elif isinstance(st, ast.Match):
@@ -1202,13 +1235,28 @@ class Tr:
                     for n in ast.walk(st):
                         if isinstance(n, ast.expr): walk_expr(n, p); break
         loopvars: set[str] = set()
+        bound: dict[str, int] = {}                  # loop targets of the enclosing `for` statements
+        loop_stmts: dict[str, list] = {}            # name -> paths of the `for` statements that bind it
         self.block_of = {}
         walk_block(fn.body, ())
         self.skip_locals = set()
         self.hoist: dict[tuple, list[str]] = {}     # (block id, stmt index) -> names to declare in front of it
+        self.shadowing: set[int] = set()            # `for v in ..` statements in the scope of a declared local v
         for v, lst in occ.items():
-            if v in loopvars or v in ('logger', 'logging', 'json'): continue
+            if v in ('logger', 'logging', 'json'): continue
             if not any(a for _, a, _ in lst): continue            # never assigned here: not a local
+            if v in loopvars:
+                # a name that is an assigned local AND (elsewhere) a loop target: after `for v in ..` Python's `v`
+                # keeps the last element, Lean's declared local its old value.  Accepted only where that cannot be
+                # observed: every occurrence of the local precedes every `for v` statement, and no loop encloses both
+                for lp in loop_stmts[v]:
+                    for p, _, _ in lst:
+                        k = 0
+                        while k < min(len(lp), len(p)) and lp[k] == p[k]: k += 1
+                        if any(isinstance(self.block_of[b][i], (ast.For, ast.While)) for b, i in lp[:k]):
+                            raise Unsupported(f'local {v} is also a loop variable inside a common loop')
+                        if k < min(len(lp), len(p)) and lp[k][0] == p[k][0] and not p[k][1] < lp[k][1]:
+                            raise Unsupported(f'local {v} is used after a loop with the loop variable {v}')
             if not any(l for _, _, l in lst):
                 self.skip_locals.add(v); continue
             paths = [p for p, _, _ in lst]
@@ -1220,6 +1268,8 @@ class Tr:
             direct = any(a and len(p) == k and p[k - 1][1] == first for p, a, _ in lst)
             if not direct:
                 self.hoist.setdefault((blk, first), []).append(v)
+            for lp in loop_stmts.get(v, []):            # `for v` statements inside the block that declares the local v
+                if any(b == blk for b, _ in lp): self.shadowing.add(id(self.block_of[lp[-1][0]][lp[-1][1]]))
 
     DEFAULTS = {'bool': 'false', 'int': '0', 'str': '""', 'node': '0', 'att': '0'}
     def default_of(self, t):
